@@ -332,7 +332,10 @@ pub fn c03(cx: &Ctx) -> Vec<Finding> {
 // ------------------------------------------------------------------ sink-side rules at puppets
 
 fn pass_through_only(path: &[&'static str]) -> bool {
-    path.iter().all(|n| matches!(*n, "map" | "filter" | "scan" | "take" | "skip"))
+    // the operators whose sink-facing talkback relays an upward Error as an Error (C04's rationale names
+    // map/filter/scan/take/skip/concat/combine as untested and merge as tested); flatten and share turn it
+    // into a plain disposal on HEAD and are not pass-through in this sense
+    path.iter().all(|n| matches!(*n, "map" | "filter" | "scan" | "take" | "skip" | "concat" | "combine" | "merge"))
 }
 
 /// puppets that may legitimately be subscribed several times per output subscription
